@@ -61,6 +61,17 @@ func coResume(L *LState) int {
 		L.Push(LString(msg))
 		return 2
 	}
+	if L.Status(th) == "normal" {
+		// it is waiting for the thread it resumed (an ancestor of the running one)
+		msg := "can not resume a normal thread"
+		if th.wrapped {
+			L.RaiseError(msg)
+			return 0
+		}
+		L.Push(LFalse)
+		L.Push(LString(msg))
+		return 2
+	}
 	th.Parent = L
 	L.G.CurrentThread = th
 	if !th.isStarted() {
